@@ -46,23 +46,53 @@ def run(ctx: Ctx) -> None:
         "Loc must compare lexicographically by (file, line, column); otherwise span comparisons are not interval comparisons",
     )
     post = span.methods.get("__post_init__")
-    inv_ok = False
-    facts = {}
+    # interpreted: a Span can be built iff both ends lie in one file and start <= end (Loc compares as (file, line, column), see above)
+    from ..absint.minieval import Unsupported as _Uns
+    from ..absint.pyeval import PyEval as _PyEval, Raised as _Raised, Tok as _Tok
+
+    class _LocEval(_PyEval):
+        def tok_compare(self, op, a, b):
+            ka, kb = (a.attrs["file"], a.attrs["line"], a.attrs["column"]), (b.attrs["file"], b.attrs["line"], b.attrs["column"])
+            return {ast.Lt: ka < kb, ast.LtE: ka <= kb, ast.Gt: ka > kb, ast.GtE: ka >= kb}[type(op)]
+
+    sem_ok = None
     if post is not None:
-        # some `if <start > end>: raise` present
-        for n in ast.walk(post.node):
-            if isinstance(n, ast.If) and must_raise(n.body):
-                t = ast.unparse(n.test)
-                facts.setdefault("raising_tests", []).append(t)
-                if isinstance(n.test, ast.Compare) and len(n.test.ops) == 1:
-                    l, r = ast.unparse(n.test.left), ast.unparse(n.test.comparators[0])
-                    op = n.test.ops[0]
-                    if (l, r) == ("self.start", "self.end") and isinstance(op, ast.Gt):
-                        inv_ok = True
-                    if (l, r) == ("self.end", "self.start") and isinstance(op, ast.Lt):
-                        inv_ok = True
-    ctx.check(inv_ok, "R-C30.0", f"{span.qualname}.__post_init__#start<=end", post.where if post else span.where, facts,
-              "Span must enforce start <= end; the containment/intersection semantics assume it")
+        bad_pi = []
+        try:
+            for (f1, l1, c1), (f2, l2, c2) in [(("a", 1, 2), ("a", 1, 2)), (("a", 1, 2), ("a", 1, 3)), (("a", 1, 9), ("a", 2, 0)), (("a", 1, 3), ("a", 1, 2)), (("a", 2, 0), ("a", 1, 9)),
+                                                   (("a", 1, 2), ("b", 1, 3)), (("b", 1, 2), ("a", 1, 3))]:
+                me = _Tok("span", start=_Tok("start", file=f1, line=l1, column=c1), end=_Tok("end", file=f2, line=l2, column=c2), __classes__=span.mro())
+                try:
+                    out = _LocEval(idx, span.module.name).run_function(post, {post.node.args.args[0].arg: me})
+                    raised = out[0] == "raise"
+                except _Raised:
+                    raised = True
+                want = f1 != f2 or (l1, c1) > (l2, c2)
+                if raised != want:
+                    bad_pi.append({"start": [f1, l1, c1], "end": [f2, l2, c2], "rejected": raised, "should_be_rejected": want})
+            sem_ok = not bad_pi
+            ctx.check(sem_ok, "R-C30.0", f"{span.qualname}.__post_init__#start<=end", post.where, {"cases": 7, "counterexamples": bad_pi},
+                      "Span must enforce start <= end; the containment/intersection semantics assume it")
+        except _Uns:
+            sem_ok = None
+    if sem_ok is None:
+        inv_ok = False
+        facts = {}
+        if post is not None:
+            # some `if <start > end>: raise` present
+            for n in ast.walk(post.node):
+                if isinstance(n, ast.If) and must_raise(n.body):
+                    t = ast.unparse(n.test)
+                    facts.setdefault("raising_tests", []).append(t)
+                    if isinstance(n.test, ast.Compare) and len(n.test.ops) == 1:
+                        l, r = ast.unparse(n.test.left), ast.unparse(n.test.comparators[0])
+                        op = n.test.ops[0]
+                        if (l, r) == ("self.start", "self.end") and isinstance(op, ast.Gt):
+                            inv_ok = True
+                        if (l, r) == ("self.end", "self.start") and isinstance(op, ast.Lt):
+                            inv_ok = True
+        ctx.check(inv_ok, "R-C30.0", f"{span.qualname}.__post_init__#start<=end", post.where if post else span.where, facts,
+                  "Span must enforce start <= end; the containment/intersection semantics assume it")
 
     kinds = {"Span": "Span", "Loc": "Loc"}
     ev = Evaluator(span.node, kinds)
